@@ -153,6 +153,27 @@ func c08Snapshot(c *Ctx) {
 		}
 		c.Check("S", fnName(fn)+"/flushed accounts and slots refresh the clean cache under the keys the disk layer reads with", acc >= 2 && sto == 2 && acc+sto == len(keys), fn.Pos(), len(keys), strings.Join(keys, " | "))
 		c.Precedes(fn, "mark the old disk layer stale", StoreTo(`\(\*kai/state/snapshot\.diskLayer\)\.stale$`), "writing the flushed data", CallTo(`^kai/rawdb\.(WriteAccountSnapshot|WriteStorageSnapshot|DeleteAccountSnapshot)$`, ""))
+		// slots of a destructed account are dropped from the clean cache under the cache's key: the database key of the
+		// iterator without its one-byte table prefix (a delete under the full key never matches and the stale slot stays)
+		nd, okd := 0, true
+		for _, in := range findInstrs(fn, CallTo(`^\(\*github\.com/VictoriaMetrics/fastcache\.Cache\)\.Del$`, "")) {
+			nd++
+			a := argPaths(callCommon(in))
+			okd = okd && len(a) == 2 && re(`^call:iface:\(kai/kaidb\.Iterator\)\.Key\(.*\)\[const:1:\]$`).MatchString(a[1])
+		}
+		c.Check("S", fnName(fn)+"/a destructed account's slots leave the clean cache under the prefix-less key", nd == 1 && okd, fn.Pos(), nd, "")
+	}
+	// ---- the node set of a commit is handed over children first: the node database counts a child's reference only
+	// when the child is already there when its parent arrives (otherwise dereferencing an older root frees nodes the
+	// head state shares with it)
+	if fn := c.Fn("trie/trienode", "NodeSet", "ForEachWithOrder"); fn != nil {
+		n := 0
+		for _, in := range findInstrs(fn, CallTo(`^sort\.Sort$`, "")) {
+			if a := argPaths(callCommon(in)); len(a) == 1 && strings.HasPrefix(a[0], "call:sort.Reverse(") {
+				n++
+			}
+		}
+		c.Check("O", fnName(fn)+"/nodes are visited longest path first (children before parents)", n == 1, fn.Pos(), n, "")
 	}
 }
 
